@@ -132,19 +132,21 @@ impl Options {
 	}
 }
 
-fn gen_options(rng: &mut Rng, ts: &TileSet, rep: &mut Report) -> Options {
+fn gen_options(rng: &mut Rng, ts: &TileSet, rep: &mut Report, cli: bool) -> Options {
 	let levels: Vec<u8> = ts.levels().into_iter().collect();
 	// output-space bounds of the highest level (selection is in output coordinates)
 	let flip = rng.bool();
 	let swap = rng.bool();
 	let mut o = Options { flip, swap, min_zoom: None, max_zoom: None, bbox: None, aligned: None, border: None };
-	if rng.chance(0.35) {
+	// command line: a good share of the transformed conversions select "the box of the source"
+	let source_box = cli && (flip || swap) && rng.chance(0.3);
+	if !source_box && rng.chance(0.35) {
 		o.min_zoom = Some(if rng.chance(0.8) { *rng.pick(&levels) } else { rng.below(33) as u8 });
 	}
-	if rng.chance(0.35) {
+	if !source_box && rng.chance(0.35) {
 		o.max_zoom = Some(if rng.chance(0.8) { *rng.pick(&levels) } else { rng.below(33) as u8 });
 	}
-	if rng.chance(0.55) {
+	if source_box || rng.chance(0.55) {
 		let z = *rng.pick(&levels);
 		let out_keys: Vec<Key> = ts.tiles.keys().filter(|k| k.0 == z).map(|k| model::transform(k, flip, swap)).collect();
 		let (mut x0, mut y0, mut x1, mut y1) = (u32::MAX, u32::MAX, 0, 0);
@@ -154,7 +156,27 @@ fn gen_options(rng: &mut Rng, ts: &TileSet, rep: &mut Report) -> Options {
 			x1 = x1.max(k.1);
 			y1 = y1.max(k.2);
 		}
-		match rng.below(7) {
+		match if source_box { 7 } else { rng.below(8) } {
+			7 => {
+				// the box that holds the whole *untransformed* coverage on every level (as if chosen by looking at
+				// the source): with flip / swap it cuts the relocated tiles
+				let (mut w, mut s_, mut e, mut n) = (180.0f64, 90.0f64, -180.0f64, -90.0f64);
+				for lz in &levels {
+					let ks: Vec<&Key> = ts.tiles.keys().filter(|k| k.0 == *lz).collect();
+					let (sx0, sy0, sx1, sy1) = ks.iter().fold((u32::MAX, u32::MAX, 0u32, 0u32), |a, k| (a.0.min(k.1), a.1.min(k.2), a.2.max(k.1), a.3.max(k.2)));
+					if let Ok(tb) = TileBBox::new(*lz, sx0, sy0, sx1, sy1) {
+						let g = tb.as_geo_bbox();
+						w = w.min(g.0);
+						s_ = s_.min(g.1);
+						e = e.max(g.2);
+						n = n.max(g.3);
+					}
+				}
+				if w <= e && s_ <= n {
+					o.bbox = Some([w, s_, e, n]);
+					rep.count("boxes_around_the_untransformed_coverage", 1);
+				}
+			}
 			0 => o.bbox = Some([-180.0, -90.0, 180.0, 90.0]),
 			1 | 2 => {
 				let m = ((1u64 << z) - 1) as u32;
@@ -176,7 +198,7 @@ fn gen_options(rng: &mut Rng, ts: &TileSet, rep: &mut Report) -> Options {
 			4 => o.bbox = Some([-180.0, -85.05112877980659, 180.0, 0.0]),
 			_ => o.bbox = Some(model::safe_geo_box(rng, &levels, (z, x0, y0, x1, y1))),
 		}
-		if rng.chance(0.5) {
+		if !source_box && rng.chance(0.5) {
 			o.border = Some(*rng.pick(&[0u32, 1, 1, 2, 3, 3, 1000, u32::MAX]));
 		}
 	}
@@ -214,7 +236,7 @@ fn run_case(cx: &CaseCtx, rep: &mut Report) {
 	let target = if level == "cli" { TARGETS[(cx.case / 6 % 5) as usize] } else { "tar" };
 	let opts = GenOpts { max_tiles: if small { 60 } else { cx.tier.pick(400, 1200) }, max_level: if small { 12 } else { 31 }, formats: pairs_for(target), unique_payloads: true, really_compress: small, ..Default::default() };
 	let ts = gen::gen_tileset(&mut rng, &opts);
-	let o = gen_options(&mut rng, &ts, rep);
+	let o = gen_options(&mut rng, &ts, rep, level == "cli");
 	let (certain, dontcare) = expected(&ts, &o);
 	rep.count(&format!("cases_{level}"), 1);
 	if o.flip && o.swap {
